@@ -4,6 +4,7 @@ import (
 	"encoding/json"
 	"errors"
 	"fmt"
+	"strings"
 	"unicode/utf8"
 
 	"github.com/xeipuuv/gojsonschema"
@@ -29,6 +30,15 @@ func ValidateServiceSchemas(schemas string) error {
 
 	svcSchemas, err := parseServiceSchemas(schemas)
 	if err != nil {
+		return err
+	}
+
+	// a schema must be self-contained: a reference to a file or URL would be resolved on the host
+	if err := validateLocalRefs(svcSchemas.Input); err != nil {
+		return err
+	}
+
+	if err := validateLocalRefs(svcSchemas.Output); err != nil {
 		return err
 	}
 
@@ -132,6 +142,37 @@ func validateOutputSchema(outputSchema map[string]interface{}) error {
 
 	if _, err = gojsonschema.NewSchema(gojsonschema.NewBytesLoader(outputSchemaBz)); err != nil {
 		return sdkerrors.Wrap(ErrInvalidSchemas, fmt.Sprintf("invalid output schema: %s", err))
+	}
+
+	return nil
+}
+
+// validateLocalRefs refuses every "$ref" that does not point into the document itself and every "id"/"$id",
+// which would make relative references resolve against an external base
+func validateLocalRefs(node interface{}) error {
+	switch n := node.(type) {
+	case map[string]interface{}:
+		for key, value := range n {
+			if ref, ok := value.(string); ok {
+				if key == "$ref" && !strings.HasPrefix(ref, "#") {
+					return sdkerrors.Wrap(ErrInvalidSchemas, fmt.Sprintf("external reference not allowed: %s", ref))
+				}
+
+				if key == "id" || key == "$id" {
+					return sdkerrors.Wrap(ErrInvalidSchemas, fmt.Sprintf("schema identifier not allowed: %s", ref))
+				}
+			}
+
+			if err := validateLocalRefs(value); err != nil {
+				return err
+			}
+		}
+	case []interface{}:
+		for _, value := range n {
+			if err := validateLocalRefs(value); err != nil {
+				return err
+			}
+		}
 	}
 
 	return nil
